@@ -122,7 +122,7 @@ def run(ctx):
     nvals = 3 if quick else 12
     nmut = 4 if quick else 12
     stats = {"schemas": 0, "types": 0, "tl1_reads": 0, "valid": 0, "mutated": 0, "hostile_count": 0, "truncated": 0, "deep": 0, "random": 0,
-             "tl2_reads": 0, "json_reads": 0, "transcodes": 0, "kernel_rejected": 0, "not_built_c14": 0, "ranked_units": 0, "unranked_units": 0,
+             "tl2_reads": 0, "json_reads": 0, "transcodes": 0, "kernel_rejected": 0, "not_built_c14": 0, "not_run_after_many_crashes": 0, "ranked_units": 0, "unranked_units": 0,
              "unranked_no_divergence_found": 0, "diverging_inputs": 0, "max_rank": 0, "max_fuel_used": 0, "max_depth_input": 0}
     ratio = {"max_alloc_per_call_bound": 0.0, "max_alloc_per_input_byte_x_elemsize": 0.0, "max_alloc_bytes": 0}
     verdicts, mism, bad, samples, unit_errors, unit_notes = {}, [], [], [], [], []
@@ -298,7 +298,7 @@ def run(ctx):
         else:
             lines_m = [pre[1]] + lines
         rc1, mo, err1 = run_lines(ref, [str(u.ir_path)], lines_m + ["fuelof " + max((l.split(" ")[5] for l in lines), key=len, default="-")])
-        go = run_lines_resilient(u.gen.exe, [], lines, timeout=300, mem_gb=2, max_restarts=100)
+        go = run_lines_resilient(u.gen.exe, [], lines, timeout=300, mem_gb=2, max_restarts=300)
         if rc1 != 0 or len(mo) != len(lines) + 2 or len(go) != len(lines):
             with lock:
                 unit_errors.append((u.name, f"driver failed: model rc={rc1} {err1[-300:]} model lines {len(mo)}/{len(lines) + 2} go lines {len(go)}/{len(lines)}"))
@@ -313,6 +313,9 @@ def run(ctx):
             vd(kind, gv.split(" ")[0])
             ust[kind if kind in ust else "random"] += 1 if kind != "amplification" else 0
             L = 0 if l.split(" ")[5] == "-" else len(l.split(" ")[5]) // 2
+            if gv == "crash too-many-restarts":
+                ust["not_run_after_many_crashes"] += 1    # the process died 300 times before: each death is reported above
+                continue
             if gv.split(" ")[0] in ("panic", "crash") or gv.startswith("driver-error"):
                 if m == "fuel" and gv.startswith("crash") and not ranked_ok:
                     ubad.append((u.name, l, g, F1_SIG if any(tlb.cycle_masked(u.ins, c) for c in cycles) else F1B_SIG, False))
@@ -419,6 +422,9 @@ def run(ctx):
             gv = g.split(" | ")[0]
             v = gv.split(" ")[0]
             vd(kind, v)
+            if gv == "crash too-many-restarts":
+                ust["not_run_after_many_crashes"] += 1
+                continue
             op = l.split(" ")[0]
             ust["json_reads" if op == "rdjt" else "tl2_reads" if op == "rd2t" else "transcodes"] += 1
             if v in ("panic", "crash") or gv.startswith("driver-error"):
